@@ -46,6 +46,7 @@ type startParams struct {
 	ConfDir        string
 	CNIPaths       []string
 	SetupIPtables  bool
+	RunGC          bool
 }
 
 // ---- kube client with field selectors ----------------------------------------------------------------------
@@ -188,6 +189,10 @@ func startDaemon(inst *Instance, p startParams) {
 	inst.g = g
 	inst.quit = make(chan struct{})
 	inst.gc = gc.NewFlannelGC(client, dockerCli, inst.quit, g.VerifCleanIPtables)
+	if p.RunGC {
+		// Galaxy.Start: gc.NewFlannelGC(...).Run() comes before setupIPtables; its loops are simulator tasks
+		inst.gc.Run()
+	}
 	if p.SetupIPtables {
 		if err := g.VerifSetupIPtables(); err != nil {
 			fail("setup-iptables", err)
